@@ -324,7 +324,9 @@ Definition mes : M unit :=
   else if id =? 104 then
     arg <- read_rn_l 1 ;;
     _a0 <- read_abs24_l arg ;; a1 <- read_abs24_l (wrap 32 (arg + 4)) ;; a2 <- read_abs24_l (wrap 32 (arg + 8)) ;;
-    bs <- read_bytes (Z.to_nat a2) a1 ;;
+    (* the loop `for i in 0..length` fails at the first unmapped byte; no mapped region is longer than 2 MiB,
+       so H'200001 consecutive reads always fail: the bound only keeps the model's recursion finite *)
+    bs <- read_bytes (Z.to_nat (Z.min a2 0x200001)) a1 ;;
     modify (fun s => set_console (console s ++ bs) s) ;;;
     send_cpu_message (MsgStdout bs)
   else fail.
